@@ -51,9 +51,12 @@ Section Wf.
                 && int16_ok (v_x v) && int16_ok (v_y v) && int16_ok (v_dx v)
     end.
 
+  Definition ctx_wf (c : ctx_sub) : bool := false.
+
   (* subtables in the form the parser produces (what the language can express) *)
   Definition sub_wf (s : subtable) : bool :=
     match s with
+    | Ctx c => ctx_wf c
     | Gsub1_1 cov delta =>
         negb (is_nil cov) && ascendingb cov && gids_ok cov && (delta <? 65536)
         && gids_ok (map (fun k => (k + delta) mod 65536) cov)
@@ -81,6 +84,7 @@ Section Wf.
 
   Definition sub_type (s : subtable) : N :=
     match s with
+    | Ctx _ => 5
     | Gsub1_1 _ _ | Gsub1_2 _ _ => 1
     | Gsub2_1 _ _ => 2
     | Gsub3_1 _ _ => 3
